@@ -103,7 +103,7 @@ def path_kinds(p, t, folder_name):
         out = set()
         suffix_ok = is_const(t[2][1]) and isinstance(t[2][1][1], str) and no_separator(p, t[2][1])
         for k, w in path_kinds(p, t[2][0], folder_name):
-            out.add(("ascmhl-file", w) if (k == "ascmhl-file" and suffix_ok) else (None, show(t)[:300]))
+            out.add(("ascmhl-file", w) if (k == "ascmhl-file" and suffix_ok) else (("none", w) if k == "none" else (None, show(t)[:300])))
         return out
     return {(None, show(t)[:300])}
 
